@@ -10,15 +10,15 @@ export GOFLAGS=-mod=mod GOPROXY=off GOSUMDB=off GOTOOLCHAIN=local
 [ -f $sd/patch.diff ] || { echo "no $sd/patch.diff"; exit 3; }
 cd $wt && git checkout -q -- . && git clean -fdq -e _seed
 demo=$(ls $sd/*_test.go | head -1)
-cp $demo $wt/seedx_test.go
-base_demo=$(go test -count=1 -run 'Seed|seed|Demo|demo' . 2>&1 | tail -3); base_rc=$?
-go test -count=1 . >/dev/null 2>&1; base_rc=$?
+ddir=${DEMO_DIR:-.}; rflag=""; [ "${RACE:-0}" = 1 ] && rflag="-race"
+cp $demo $wt/$ddir/seedx_test.go
+go test $rflag -count=1 ./$ddir >/dev/null 2>&1; base_rc=$?
 git apply $sd/patch.diff || { echo "patch does not apply"; exit 3; }
 go build ./... || { echo "does not build"; exit 3; }
-rm -f seedx_test.go
+rm -f $ddir/seedx_test.go
 go test -count=1 ./... >/tmp/seed-suite.log 2>&1; suite_rc=$?
-cp $demo $wt/seedx_test.go
-go test -count=1 . >/tmp/seed-demo.log 2>&1; demo_rc=$?
+cp $demo $wt/$ddir/seedx_test.go
+go test $rflag -count=1 ./$ddir >/tmp/seed-demo.log 2>&1; demo_rc=$?
 git checkout -q -- . && git clean -fdq -e _seed
 echo "$prop-$v: demo on clean tree rc=$base_rc (want 0); suite with patch rc=$suite_rc (want 0); demo with patch rc=$demo_rc (want != 0)"
 if [ $base_rc -ne 0 ] || [ $suite_rc -ne 0 ] || [ $demo_rc -eq 0 ]; then echo "NOT CONFIRMED"; tail -5 /tmp/seed-suite.log /tmp/seed-demo.log; exit 4; fi
